@@ -16,7 +16,7 @@ NEEDS = ["cli", "cli:ovf"]
 STATS = ["d-fu-li", "d-tajima", "f2", "f3", "f4", "fst", "king", "pi", "pi-xy", "r0", "r1", "s", "sum", "theta"]
 RULE = ("(1) EVERY statistic (14) x EVERY shape with 1-4 axes and lengths 1-4 (340 shapes) plus all 1-2 axis shapes up to length 10 and all 9-entry shapes, zero/positive data; (2) view/fold/create option values at and "
         "beyond their bounds (axes, projection targets 0 / larger / wrong dimensionality / 2^63 / 2^64-1, precision 0/17/65535/65536/10^6, threads); "
-        "(2b) error exits and log lines with stderr pointing at /dev/full; (2c) successful work whose stdout is a pipe without reader (EPIPE), /dev/full (ENOSPC) or a read-only descriptor (EBADF), outputs from bytes to beyond the pipe buffer; (3) empty and 1-10 byte inputs and texts cut off after / interrupted by multi-byte UTF-8 characters, to all four subcommands by path and stdin; (4) absurd declared shapes in text and npy headers (0, 2^32, 2^63, "
+        "(2b) error exits and log lines with stderr pointing at /dev/full; (2c) successful work whose stdout is a pipe without reader (EPIPE), /dev/full (ENOSPC) or a read-only descriptor (EBADF), outputs from bytes to beyond the pipe buffer; (2d) `create` at every verbosity on inputs of 2^16 .. 2^17+1 records; (3) empty and 1-10 byte inputs and texts cut off after / interrupted by multi-byte UTF-8 characters, to all four subcommands by path and stdin; (4) absurd declared shapes in text and npy headers (0, 2^32, 2^63, "
         "wrapping products, up to 22000 axes); (5) contradictory sample lists: hand-written ones plus EVERY list of 1-4 entries over {2 samples} x {label A, label B, no label} (1554 lists, -s and -S) and seeded 5-9 entry lists over 3 samples x 4 labels; (6) hostile bytes: every single-byte substitution {^01, ^80, 00, ff, +1} "
         "at every offset of small vcf / vcf.gz / bgzf bcf / raw bcf / npy / text seed files (deterministic), the same on the uncompressed payload "
         "re-BGZF'd, plus seeded multi-site mutations, splices, digit runs -> huge numbers, truncations. Each run on the release and the "
@@ -26,7 +26,7 @@ RULE = ("(1) EVERY statistic (14) x EVERY shape with 1-4 axes and lengths 1-4 (3
 ASSUMPTIONS = ["findings are keyed by (subcommand, normalised panic site); dependency sites are stable because Cargo.lock pins them",
                "--threads up to the tool's own limit (1024) is assumed to be spawnable on the machine running the check",
                "population counts between 20 and 25 are not generated: the 3^k-cell spectrum may or may not be allocatable on a given machine"]
-FLOORS = {"quick": {"evaluations": 30000, "distinct_nontrivial": 10000, "counts": {"stat_grid": 11000, "option_bounds": 300, "short_inputs": 300, "absurd_shapes": 150, "sample_lists": 60, "sample_lists_enumerated": 1900, "stdout_gone_runs": 500, "hostile_bytes": 15000}},
+FLOORS = {"quick": {"evaluations": 30000, "distinct_nontrivial": 10000, "counts": {"stat_grid": 11000, "option_bounds": 300, "short_inputs": 300, "absurd_shapes": 150, "sample_lists": 60, "sample_lists_enumerated": 1900, "stdout_gone_runs": 500, "many_records_runs": 30, "hostile_bytes": 15000}},
           "thorough": {"evaluations": 300000, "distinct_nontrivial": 150000, "counts": {"stat_grid": 11000, "hostile_bytes": 300000}}}
 NSHARD = 32
 KINDS = ["release", "ovf"]
@@ -218,6 +218,12 @@ def part_stderr_full(S, p):
                 S.viol("C17:panic:%s:stderr-full:exit-101" % args[0], "[%s with stderr -> /dev/full, %s binary] exit 101: a failed write to stderr became a panic" % (args, kind), wit)
             elif r.signal:
                 S.viol("C17:signal:%s:%d" % (args[0], r.signal), "[%s with stderr -> /dev/full, %s binary] killed by signal %d" % (args, kind, r.signal), wit)
+            else:
+                # success or failure is decided by the work, not by whether the diagnostic could be delivered
+                rn = cli.sfs(args, stdin=inp, kind=kind, timeout=30)
+                if rn.rc is not None and r.rc != rn.rc:
+                    S.viol("C17:status-depends-on-stderr:%s" % args[0], "[%s, %s binary] exit status %s with stderr -> /dev/full but %s with a readable stderr (%r)" % (
+                        args, kind, r.rc, rn.rc, rn.err[:120]), wit)
             S.case(key=digest([args, inp.hex()[:200], kind, "stderrfull"]), nontrivial=r.rc != 0)
 
 
@@ -244,6 +250,26 @@ def part_stdout_gone(S, p):
                 S.observe("stdout_gone_outcome", "%s: exit %s%s" % (where, r.rc, " with diagnostic" if r.err.strip() else ""))
                 res = classify(S, r, args[0], "stdout-gone " + where, None, kind, "stdout_gone_runs", extra={"stdout_to": where, "input_b64": E.b64(inp[:100000])})
                 S.case(key=digest([args, where, kind, len(inp)]), nontrivial=res == "error")
+
+
+def part_many_records(S, p):
+    """Inputs with more than 2^16 / 2^17 records (a chromosome arm of variants), at every verbosity: progress counters, rates and
+    per-site logging must survive them - on a fast machine (everything in well under a second) as on a slow one."""
+    rng = rng_for(S.seed, "c17", p["name"], "many")
+    nrec = rng.choice([65536, 65537, 70000, 131073])
+    head = "##fileformat=VCFv4.3\n##contig=<ID=c1,length=100000000>\n##FORMAT=<ID=GT,Number=1,Type=String,Description=\"g\">\n#CHROM\tPOS\tID\tREF\tALT\tQUAL\tFILTER\tINFO\tFORMAT\ta\tb\n"
+    gts = ["0/0\t0/1", "0|1\t1|1", "./.\t0/0", "0/0\t0/0", "1/1\t0/1"]
+    body = "".join("c1\t%d\t.\tA\tC\t.\t.\t.\tGT\t%s\n" % (k + 1, gts[(k * 7) % 5 if k % 1000 else 2]) for k in range(nrec))
+    vcf = (head + body).encode()
+    gz = vcfgen.bgzf(vcf, list(range(60000, len(vcf), 60000)))
+    for args, inp in ((["create", "-v"], vcf), (["create", "-vv", "-t", "2"], gz), (["create", "-q"], vcf), (["create", "-v", "-p", "1"], gz), (["create", "--debug"], vcf)):
+        for kind in KINDS:
+            r = cli.sfs(args, stdin=inp, kind=kind, timeout=120)
+            S.observe("many_records", "%d records: %s" % (nrec, " ".join(args)))
+            res = classify(S, r, "create", "many-records %d" % nrec, None, kind, "many_records_runs", extra={"input": "VCF of %d records, 2 samples (see part_many_records)" % nrec})
+            if res == "ok" and not r.out.startswith(b"#SHAPE=<"):
+                S.viol("C17:many-records:no-output", "[%s on %d records, %s binary] exit 0 without a spectrum" % (args, nrec, kind), {"level": "C", "argv": r.argv, "run": r.brief()})
+            S.case(key=digest([args, nrec, kind]), nontrivial=True)
 
 
 # ---------------------------------------------------------------- (3) short inputs
@@ -452,6 +478,8 @@ def shard(S, p):
     part_options(S, p)
     part_stderr_full(S, p)
     part_stdout_gone(S, p)
+    if p["i"] % 8 == 6:
+        part_many_records(S, p)
     part_short(S, p)
     part_absurd(S, p)
     part_samples(S, p)
